@@ -198,6 +198,60 @@ def okKspF (fuel : Nat) (g : MGraph) (s : Nat) (goal : Option Nat) (k : Nat) (m 
 def okKsp (g : MGraph) (s : Nat) (goal : Option Nat) (k : Nat) (m : List (Nat × Int)) : Bool :=
   okKspF (kWalksFuel g k) g s goal k m
 
+/-! ### +infinity (wave 6)
+
+Float costs may be `+∞`.  The harness encodes `+∞` as a sentinel weight `S` (far above every finite sum of the
+case) in the abstract graph and passes `f64::INFINITY` to the real call; the implementation's `inf` answers are
+read as `S`.  An answer is accepted iff it is the image under `canonInf S` (everything `≥ S` is `+∞`) of an answer
+the ordinary judge accepts: the `S` entries are lifted to the oracle's own value (which must be `≥ S`). -/
+
+def canonInf (S c : Int) : Int := if S ≤ c then S else c
+
+def liftVal (S : Int) (r : Option Int) : Int :=
+  match r with
+  | some y => if S ≤ y then y else S
+  | none => S
+
+/-- replace every entry `S` by the reference value of its node (if that is `≥ S`) -/
+def liftInf (S : Int) (ref : Nat → Option Int) (m : List (Nat × Int)) : List (Nat × Int) :=
+  m.map fun vc => if vc.2 == S then (vc.1, liftVal S (ref vc.1)) else vc
+
+def belowInf (S : Int) (m : List (Nat × Int)) : Bool := m.all fun vc => decide (vc.2 ≤ S)
+
+def okDijInf (S : Int) (g : MGraph) (s : Nat) (m : List (Nat × Int)) : Bool :=
+  belowInf S m &&
+  match certDist g s with
+  | none => false
+  | some d => okDijAll g s (liftInf S (labelOf d) m)
+
+def okKspInfF (S : Int) (fuel : Nat) (g : MGraph) (s k : Nat) (m : List (Nat × Int)) : Bool :=
+  belowInf S m &&
+  match kWalksF fuel g s k with
+  | none => false
+  | some T => okKspF fuel g s none k (liftInf S (fun v => (kRow T v)[k - 1]?) m)
+
+def okAstarInf (S : Int) (g : MGraph) (s : Nat) (goals : List Nat) (ans : Option (Int × List Nat)) : Bool :=
+  match ans with
+  | none => okAstar g s goals none
+  | some (c, p) =>
+    if c == S then
+      -- every path through a `+∞` arc is as good as any other: the path must be real, cost `≥ S`, and no goal be
+      -- reachable below `S`
+      match certDist g s with
+      | none => false
+      | some d =>
+        (p.head? == some s) &&
+        (match p.getLast? with
+         | some t => goals.contains t
+         | none => false) &&
+        (match pathCost g p with
+         | some pc => decide (S ≤ pc)
+         | none => false) &&
+        goals.all fun t => match labelOf d t with
+          | none => true
+          | some y => decide (S ≤ y)
+    else decide (c < S) && okAstar g s goals (some (c, p))
+
 /-! ### MinScored as a specification: reverse of the numeric order, NaN last -/
 
 /-- numeric `≤` on the non-NaN scores -/
